@@ -62,7 +62,7 @@ fn mutate(rng: &mut Rng, s: &[u8]) -> Vec<u8> {
 }
 
 fn adversarial(rng: &mut Rng, kind: usize) -> (String, Vec<u8>) {
-    match kind % 19 {
+    match kind % 20 {
         0 => { let d = 50 + rng.below(3000); ("lark".into(), format!("start: {}\"a\"{}\n", "(".repeat(d), ")".repeat(d)).into_bytes()) }
         1 => { let n = [1000usize, 100000, 4000000000][rng.below(3)]; ("lark".into(), format!("start: \"a\"{{0,{n}}}\n").into_bytes()) }
         2 => { let n = 10 + rng.below(300); ("lark".into(), format!("start: {}\n", (0..n).map(|i| format!("\"k{i}\"")).collect::<Vec<_>>().join(" | ")).into_bytes()) }
@@ -80,6 +80,19 @@ fn adversarial(rng: &mut Rng, kind: usize) -> (String, Vec<u8>) {
         15 => { let d = [29usize, 40, 200, 1000, 5000, 20000][rng.below(6)]; ("lark".into(), format!("{}start: \"a\"\n{}", "start: %lark {\n".repeat(d), "}\n".repeat(d)).into_bytes()) }
         16 => { let d = [29usize, 60, 500, 3000][rng.below(4)]; ("lark".into(), format!("start: {}\"a\"{}\n", "(".repeat(d), ")?".repeat(d)).into_bytes()) }
         17 => { let d = 20 + rng.below(2000); let mut s = String::from("{\"type\":\"integer\"}"); for _ in 0..d { s = format!("{{\"anyOf\":[{s},{{\"type\":\"null\"}}]}}"); } ("json".into(), s.into_bytes()) }
+        18 => {
+            // token references by id around the vocabulary size (the single-byte vocabulary of the child has 256 bytes
+            // plus a handful of special tokens): out-of-range ids must be refused when the grammar is built
+            let n = vocab::single_byte_words().len();
+            let hi = [n - 1, n, n, n, n + 1, 100000, u32::MAX as usize][rng.below(7)];
+            let g = match rng.below(4) {
+                0 => format!("start: \"a\" <[97-{hi}]>\n"),
+                1 => format!("start: <[5,{hi}]> \"b\"\n"),
+                2 => format!("start: <[{hi}]>\n"),
+                _ => format!("start: \"a\" <[^0-{hi}]> | \"b\"\n"),
+            };
+            ("lark".into(), g.into_bytes())
+        }
         14 => ("tokjson".into(), json!({"decoder":{"type":"Sequence","decoders":[{"type":"ByteFallback"}]},"added_tokens":[],"model":{"vocab":{"<0xZZ>":0,"a":1,"<0x4":2,"<0x41>":3,"<0x\u{e9}>":4}}}).to_string().into_bytes()),
         _ => ("slices".into(), b"[a-z]+\n[a-z]{1,3}\n(\n[^\n".to_vec()),
     }
@@ -106,7 +119,7 @@ pub fn gen_case(rng: &mut Rng, idx: usize, thorough: bool) -> Value {
             0 => { let kinds = ["lark", "json", "regex", "slices", "tokjson"]; let l = rng.below(60); (kinds[rng.below(5)].to_string(), (0..l).map(|_| rng.below(256) as u8).collect()) }
             1 => { let c = rng.pick(CORPUS_LARK); ("lark".to_string(), mutate(rng, c.as_bytes())) }
             2 => { let c = corpus_json(); let v = rng.pick(&c).to_string(); ("json".to_string(), mutate(rng, v.as_bytes())) }
-            3 => { let kk = if rng.chance(1, 2) { rng.below(19) } else { idx * 5 + k / 5 }; adversarial(rng, kk) }
+            3 => { let kk = if rng.chance(1, 2) { rng.below(20) } else { idx * 5 + k / 5 }; adversarial(rng, kk) }
             _ => {
                 // valid corpus entry followed by an API script (also with tight limits)
                 if rng.chance(1, 2) { ("lark".to_string(), rng.pick(CORPUS_LARK).as_bytes().to_vec()) } else { let c = corpus_json(); ("json".to_string(), rng.pick(&c).to_string().into_bytes()) }
